@@ -33,16 +33,27 @@ OFFS = [0, 0, 1, 5, 100, 1000, 4096, 65536, 1 << 20, (1 << 20) + 1, 1 << 40, V62
 VALS = [0, 1, 2, 100, 4096, 65536, 1 << 20, (1 << 60) - 1, 1 << 60, (1 << 60) + 1, V62]
 
 
-def frame_strategy():
+def frame_strategy(benign=False):
+    """benign: values a well-behaved peer could send, so that the connection survives several packets and the later frames of a case meet a
+    live connection; direction and state errors (a frame for a stream that cannot carry it) are still generated"""
     from hypothesis import strategies as st
 
-    sid = st.one_of(st.sampled_from(IDS), st.sampled_from([0, 0, 4, 1, 2, 3]))
-    off = st.sampled_from(OFFS)
-    val = st.sampled_from(VALS)
-    code = st.sampled_from([0, 1, 7, 0x10E, V62])
-    dlen = st.sampled_from([0, 0, 1, 5, 100, 1100])
-    cid = st.one_of(st.binary(min_size=8, max_size=8), st.binary(min_size=1, max_size=20), st.sampled_from([b"", bytes(21), bytes(255)]))
-    seq = st.one_of(st.integers(0, 12), st.sampled_from([0, 1, 2, 8, 9, 100, 1 << 20, V62]))
+    if benign:
+        sid = st.sampled_from([0, 4, 8, 1, 5, 2, 6, 3, 7, 12, 16])
+        off = st.sampled_from([0, 0, 1, 5, 100, 1000])
+        val = st.sampled_from([100, 4096, 65536, 1 << 20, 1 << 30])
+        code = st.sampled_from([0, 1, 7, 0x10E])
+        dlen = st.sampled_from([0, 1, 5, 100, 1100])
+        cid = st.binary(min_size=8, max_size=8)
+        seq = st.integers(0, 8)
+    else:
+        sid = st.one_of(st.sampled_from(IDS), st.sampled_from([0, 0, 4, 1, 2, 3]))
+        off = st.sampled_from(OFFS)
+        val = st.sampled_from(VALS)
+        code = st.sampled_from([0, 1, 7, 0x10E, V62])
+        dlen = st.sampled_from([0, 0, 1, 5, 100, 1100])
+        cid = st.one_of(st.binary(min_size=8, max_size=8), st.binary(min_size=1, max_size=20), st.sampled_from([b"", bytes(21), bytes(255)]))
+        seq = st.one_of(st.integers(0, 12), st.sampled_from([0, 1, 2, 8, 9, 100, 1 << 20, V62]))
     ack_ranges = st.lists(st.tuples(st.integers(0, 40), st.integers(0, 6)), min_size=1, max_size=6)
     fr = st.one_of(
         st.fixed_dictionaries({"name": st.just("stream"), "stream_id": sid, "offset": off, "n": dlen, "fin": st.booleans(), "has_len": st.booleans()}),
@@ -65,6 +76,14 @@ def frame_strategy():
         st.fixed_dictionaries({"name": st.just("ack"), "base": st.sampled_from(["sent", "sent", "sent", "beyond", "zero", "huge"]), "ranges": ack_ranges, "delay": st.sampled_from([0, 1, 1000, V62]), "ecn": st.booleans()}),
         st.fixed_dictionaries({"name": st.just("raw"), "data": st.one_of(st.binary(min_size=1, max_size=12), st.sampled_from([b"\x1f", b"\x20", b"\x21", b"\x40\x01", b"\x40\x06\x00\x00", b"\x80\x00\x00\x1c\x00\x00\x00", b"\xc0\x00\x00\x00\x00\x00\x00\x08\x00\x00", b"\x3f", b"\x7f\xff", b"\xff" * 8, b"\x02", b"\x02\x05", b"\x02\x05\x00\xff", b"\x06\x00\x40", b"\x08", b"\x0a\x00\x3f", b"\x18\x01\x00\x00", b"\x18\x01\x00\x15" + bytes(21 + 16), b"\x1c\x00\x00\x41", b"\x30"]))}),
     )
+    if benign:
+        lethal = lambda f: (
+            f["name"] in ("raw", "connection_close", "application_close", "crypto", "path_response")
+            or (f["name"] == "crypto_tls" and f["kind"] not in ("nst",))
+            or (f["name"] == "ack" and (f["base"] != "sent" or f["delay"] > 1000))
+            or (f["name"] == "new_connection_id" and f["rpt"] not in ("0", "seq-1", "seq-2"))
+        )
+        fr = fr.filter(lambda f: not lethal(f))
     trunc = st.tuples(fr, st.one_of(st.none(), st.none(), st.none(), st.integers(1, 12)))
     return trunc
 
@@ -73,7 +92,8 @@ def ops_strategy(role):
     from hypothesis import strategies as st
 
     fr = frame_strategy()
-    pkt = st.tuples(st.just("pkt"), st.lists(fr, min_size=1, max_size=3), st.sampled_from([None, None, None, 1, 3, 1000]))
+    bn = frame_strategy(benign=True).map(lambda t: (t[0], None))
+    pkt = st.tuples(st.just("pkt"), st.one_of(st.lists(fr, min_size=1, max_size=3), st.lists(bn, min_size=1, max_size=3)), st.sampled_from([None, None, None, 1, 3, 1000]))
     burst = st.tuples(st.just("burst"), st.sampled_from([2, 2, 3]), st.sampled_from([5, 40, 300, 700]))
     app = st.tuples(
         st.just("app"),
